@@ -1,6 +1,7 @@
 (* C08 - MapSpec parsing, printing, shapes and index maps are mutually consistent.
    Only statements here; every proof is `exact <lemma>` into Proofs/. *)
-From Verif Require Import Base.Prelude Base.Index Model.MapSpec Model.MapSpecSpec Proofs.IndexFacts Proofs.MapSpecFacts.
+From Verif Require Import Base.Prelude Base.Index Model.MapSpec Model.MapSpecSpec
+  Proofs.IndexFacts Proofs.MapSpecFacts.
 
 (* over linear indices 0..N-1, output_key visits every output position exactly once in row-major order
    (all_indices is itertools.product of the ranges; it has no duplicates and length prod sh) *)
@@ -10,3 +11,58 @@ Theorem C08_output_key_bijection_rowmajor : forall m sh,
   /\ NoDup (all_indices sh) /\ length (all_indices sh) = prod sh.
 Proof. intros m sh H1 H2. exact (conj (output_key_rowmajor m sh H1 H2) (conj (all_indices_NoDup sh) (all_indices_length sh))). Qed.
 Print Assumptions C08_output_key_bijection_rowmajor.
+
+(* linear index <-> position are mutually inverse (so "exactly once" holds for each position) *)
+Theorem C08_linear_index_roundtrip : forall sh,
+  (forall n, n < prod sh -> ravel sh (unravel sh n) = n)
+  /\ (forall key, in_bounds sh key = true -> unravel sh (ravel sh key) = key).
+Proof. intros sh. exact (conj (ravel_unravel sh) (unravel_ravel sh)). Qed.
+Print Assumptions C08_linear_index_roundtrip.
+
+(* input_keys selects for each input exactly the entries whose named indices equal the output position
+   (full slices for ':'); stated for specs without duplicate input names / output indices *)
+Theorem C08_input_keys_select : forall m sh n,
+  wf_decl m = true -> NoDup (map aname (ins m)) -> NoDup (output_indices m) ->
+  length sh = length (external_indices m) -> forallb (fun d => 0 <? d) sh = true ->
+  exists d, input_keys m sh n = Ok d /\ input_keys_ok m (unravel sh n) d = true.
+Proof. exact input_keys_select. Qed.
+Print Assumptions C08_input_keys_select.
+
+(* construction accepts exactly the declaratively well-formed specs: malformed specs (an input index
+   absent from the output, ':' in an output, outputs with different indices, non-identifier names,
+   no output) are rejected *)
+Theorem C08_malformed_rejected : forall i o m,
+  build i o = Ok m <-> (wf_decl {| ins := raw_of i; outs := raw_of o |} = true
+                        /\ m = {| ins := raw_of i; outs := raw_of o |}).
+Proof. exact build_accepts_iff_wf. Qed.
+Print Assumptions C08_malformed_rejected.
+
+(* rename maps well-formed specs to well-formed specs denoting the renamed mapping (same axes) *)
+Theorem C08_rename_wf : forall m ren,
+  wf_decl m = true ->
+  (wf_decl (rename_struct m ren) = true -> rename m ren = Ok (rename_struct m ren))
+  /\ (forall r, rename m ren = Ok r -> r = rename_struct m ren /\ wf_decl r = true).
+Proof. exact rename_wf. Qed.
+Print Assumptions C08_rename_wf.
+
+(* add_axes appends the new axes to every array; result is well-formed; duplicates are rejected *)
+Theorem C08_add_axes_wf : forall m ax,
+  (forallb (fresh_axes ax) (ins m ++ outs m) = true -> wf_decl (add_axes_struct m ax) = true ->
+   add_axes m ax = Ok (add_axes_struct m ax))
+  /\ (forall r, add_axes m ax = Ok r ->
+        r = add_axes_struct m ax /\ wf_decl r = true /\ forallb (fresh_axes ax) (ins m ++ outs m) = true).
+Proof. exact add_axes_wf. Qed.
+Print Assumptions C08_add_axes_wf.
+
+(* non-vacuity: a concrete well-formed spec with a reduction, a zip and an outer product *)
+Example C08_example_wf :
+  let m := {| ins := [ {| aname := s "a"; axes := [Some (s "i"); None] |};
+                       {| aname := s "b.c"; axes := [Some (s "j")] |} ];
+              outs := [ {| aname := s "q"; axes := [Some (s "i"); Some (s "j")] |} ] |} in
+  wf_decl m = true /\ NoDup (map aname (ins m)) /\ NoDup (output_indices m)
+  /\ length [2; 3] = length (external_indices m) /\ n_input_indices m = 2.
+Proof.
+  cbv zeta. repeat split; try reflexivity.
+  - repeat constructor; cbn; intuition discriminate.
+  - repeat constructor; cbn; intuition discriminate.
+Qed.
